@@ -419,9 +419,10 @@ Proof.
   destruct (str_iter (S (length bs)) bs 0 Ground) as [[[ps bs'] st']|]; reflexivity.
 Qed.
 
-(* StripStr / StripBytes fed chunk by chunk: `strip_next` (pinned) hands the iterator a
+(* StripStr / StripBytes fed chunk by chunk: `strip_next` hands the iterator a
    borrow of the carried state, i.e. the state is copied in and what the drained iterator
-   leaves is copied out *)
+   leaves is copied out (see gt_str_chunks / gt_bytes_chunks at the end of the file for the
+   same drive over the TRANSLATED `new` / `strip_next`) *)
 Fixpoint g_str_chunks (chunks : list (list N)) (st : state) : option (list (list (list N)) * state) :=
   match chunks with
   | [] => Some ([], st)
@@ -507,4 +508,96 @@ Proof.
   intros H V. destruct (strip_str_chunked chunks H V) as (pss & st & E & Hs & Hm).
   exists (map (map p_bytes) pss), st. rewrite g_str_chunks_is_model, E, concat_pieces, g_strip_str_to_string_is_model.
   repeat split; assumption.
+Qed.
+
+(* ---- StripStr / StripBytes: `new` and `strip_next`, translated ------------------------------ *)
+
+(* the initial states are the hand model's initial states *)
+Lemma g_strip_str_new_eq : g_strip_str_new = Ground.
+Proof. reflexivity. Qed.
+Lemma g_strip_bytes_new_eq : g_strip_bytes_new = mkStripBytesSt Ground u8_new.
+Proof. reflexivity. Qed.
+
+(* strip_next: the iterator is over the bytes handed in and starts from the carried state (copy-in);
+   the StripStr / StripBytes itself is not touched by the call *)
+Lemma g_strip_str_strip_next_eq s c : g_strip_str_strip_next s c = (s, mkStrIt c s).
+Proof. reflexivity. Qed.
+Lemma g_strip_bytes_strip_next_eq s c :
+  g_strip_bytes_strip_next s c = (s, mkBytesIt c (sbs_state s) (sbs_utf8 s)).
+Proof. reflexivity. Qed.
+
+(* StrippedBytes::is_empty / extend: `extend` swaps in the next slice and keeps the scanner state; with
+   unprocessed bytes left the debug_assert! fires (None) *)
+Lemma g_stripped_bytes_is_empty_eq it : g_stripped_bytes_is_empty it = match bi_bytes it with [] => true | _ => false end.
+Proof. unfold g_stripped_bytes_is_empty, Imp.is_empty. destruct (bi_bytes it); reflexivity. Qed.
+Lemma g_stripped_bytes_extend_eq it bs :
+  g_stripped_bytes_extend it bs =
+  match bi_bytes it with [] => Some (mkBytesIt bs (bi_state it) (bi_utf8 it)) | _ => None end.
+Proof. unfold g_stripped_bytes_extend. rewrite g_stripped_bytes_is_empty_eq. destruct (bi_bytes it); reflexivity. Qed.
+
+(* the chunked drive over the translated functions.  `strip_next` returns a struct that holds `&mut self.state`
+   (/ `&mut self.utf8parser`): the fields of the iterator ARE the fields of the StripStr / StripBytes while it
+   lives, so what the drained iterator leaves in them is the carried state afterwards (copy-out: the setters) *)
+Fixpoint gt_str_chunks (chunks : list (list N)) (s : state) : option (list (list (list N)) * state) :=
+  match chunks with
+  | [] => Some ([], s)
+  | c :: rest =>
+      let '(s1, it) := g_strip_str_strip_next s c in
+      '(ps, it') <- drain_st g_strip_str_iter_next (S (length c)) it ;;
+      '(pss, s2) <- gt_str_chunks rest (set_sstr_state s1 (si_state it')) ;;
+      Some (ps :: pss, s2)
+  end.
+
+Fixpoint gt_bytes_chunks (chunks : list (list N)) (s : strip_bytes_st) : option (list (list (list N)) * strip_bytes_st) :=
+  match chunks with
+  | [] => Some ([], s)
+  | c :: rest =>
+      let '(s1, it) := g_strip_bytes_strip_next s c in
+      '(ps, it') <- drain_st g_strip_bytes_iter_next (S (length c)) it ;;
+      '(pss, s2) <- gt_bytes_chunks rest (set_sbs_utf8 (set_sbs_state s1 (bi_state it')) (bi_utf8 it')) ;;
+      Some (ps :: pss, s2)
+  end.
+
+Lemma gt_str_chunks_eq chunks : forall s, gt_str_chunks chunks s = g_str_chunks chunks s.
+Proof.
+  induction chunks as [|c rest IH]; intros s; cbn [gt_str_chunks g_str_chunks]; [reflexivity|].
+  rewrite g_strip_str_strip_next_eq.
+  destruct (drain_st g_strip_str_iter_next (S (length c)) (mkStrIt c s)) as [[ps it']|]; [|reflexivity].
+  cbv beta iota. unfold set_sstr_state. rewrite IH. reflexivity.
+Qed.
+
+Lemma gt_bytes_chunks_eq chunks : forall s,
+  gt_bytes_chunks chunks s =
+  match g_bytes_chunks chunks (sbs_state s) (sbs_utf8 s) with
+  | Some (pss, st, u) => Some (pss, mkStripBytesSt st u)
+  | None => None
+  end.
+Proof.
+  induction chunks as [|c rest IH]; intros s; cbn [gt_bytes_chunks g_bytes_chunks]; [destruct s; reflexivity|].
+  rewrite g_strip_bytes_strip_next_eq.
+  destruct (drain_st g_strip_bytes_iter_next (S (length c)) (mkBytesIt c (sbs_state s) (sbs_utf8 s))) as [[ps it']|]; [|reflexivity].
+  cbv beta iota. rewrite IH. unfold set_sbs_utf8, set_sbs_state. cbn [sbs_state sbs_utf8].
+  destruct (g_bytes_chunks rest (bi_state it') (bi_utf8 it')) as [[[pss st] u]|]; reflexivity.
+Qed.
+
+(* StripStr::new() / StripBytes::new() fed chunk by chunk through the translated strip_next: the specification's strip *)
+Theorem translated_str_new_chunks_refine_spec chunks :
+  bytes_ok (concat chunks) -> Forall (fun c => valid_utf8 c = true) chunks ->
+  exists pss st,
+    gt_str_chunks chunks g_strip_str_new = Some (pss, st) /\
+    concat (map (@concat N) pss) = spec_strip (concat chunks).
+Proof.
+  intros H V. destruct (translated_str_chunks_refine_spec chunks H V) as (pss & st & E & Hs & _).
+  exists pss, st. rewrite gt_str_chunks_eq, g_strip_str_new_eq. split; assumption.
+Qed.
+
+Theorem translated_bytes_new_chunks_refine_spec chunks :
+  bytes_ok (concat chunks) ->
+  exists pss s,
+    gt_bytes_chunks chunks g_strip_bytes_new = Some (pss, s) /\
+    concat (map (@concat N) pss) = spec_strip (concat chunks).
+Proof.
+  intros H. destruct (translated_bytes_chunks_refine_spec chunks H) as (pss & st & u & E & Hs & _).
+  exists pss, (mkStripBytesSt st u). rewrite gt_bytes_chunks_eq, g_strip_bytes_new_eq. cbn [sbs_state sbs_utf8].
+  rewrite E. split; [reflexivity|assumption].
 Qed.
